@@ -8,6 +8,8 @@ import Driver.AllocD
 import Driver.Threads
 import Driver.PanicD
 import Driver.SigD
+import Driver.AsyncD
+import Driver.CallConv
 namespace Driver
 
 def dispatch (line : String) : String :=
@@ -34,6 +36,9 @@ def dispatch (line : String) : String :=
       | "allocinstall" => handleAllocInstall args obs
       | "thr" => handleThr args obs
       | "pan" => handlePan rest
+      | "async" => handleAsync obs
+      | "cc" => handleCc args obs
+      | "ccrust" => handleCcRust args obs
       | "sigty" => handleSigTy args obs
       | "sigpair" => handleSigPair args obs
       | "sigmix" => handleSigMix args obs
